@@ -1009,8 +1009,7 @@ void SPxMainSM<R>::DoubletonEquationPS::execute(VectorBase<R>& x, VectorBase<R>&
          ((cStatus[m_k] == SPxSolverBase<R>::ON_LOWER && m_strictLo) ||
           (cStatus[m_k] == SPxSolverBase<R>::ON_UPPER && m_strictUp) ||
           (cStatus[m_k] == SPxSolverBase<R>::FIXED    &&
-           ((m_maxSense && ((r[m_j] > 0 && m_strictUp) || (r[m_j] < 0 && m_strictLo))) ||
-            (!m_maxSense && ((r[m_j] > 0 && m_strictLo) || (r[m_j] < 0 && m_strictUp)))))))
+           ((r[m_k] > 0 && m_strictLo) || (r[m_k] < 0 && m_strictUp)))))
    {
       R val  = m_kObj;
       R aik  = m_col[m_i];
